@@ -60,8 +60,6 @@ package verifspec
 //@   ensures found == has(gls.byReference, sym)
 //@   ensures found ==> impl.PkgPath == gls.byReference[sym].Implementation.PkgPath && impl.Name == gls.byReference[sym].Implementation.Name
 
-// (GoLinknameSet.Add is not under contract: its quantified postcondition over maps keyed by structs did not discharge
-// reliably -- unknown on 2 of 12 paths -- and is therefore not claimed.)
 
 //@ extern compiler/linkname.lookupTopNode
 //@   param file name
@@ -84,3 +82,15 @@ package verifspec
 //@   ensures len(directives) == len(old(directives)) + 1 ==> result == nil && isUnsafe
 //@   ensures len(directives) == len(old(directives)) + 1 ==> (link != nil && node != nil && isFunc && decl.Body == nil)
 //@   ensures len(directives) == len(old(directives)) + 1 ==> directives[len(directives) - 1].Reference.Name == link.Reference.Name && directives[len(directives) - 1].Reference.PkgPath == pkgPath
+
+// GoLinknameSet.Add: after a successful Add every directive's implementation is known as one and its reference resolves;
+// nothing that was known before is forgotten.
+//@ func compiler/linkname.GoLinknameSet.Add
+//@ property C10 C05
+//@   requires gls != nil
+//@   assigns gls.byImplementation, gls.byReference
+//@   loop 1 invariant 0 <= $i1 && $i1 <= len(entries) && !isnil(gls.byImplementation) && !isnil(gls.byReference)
+//@   loop 1 invariant forall(k, 0, $i1, has(gls.byImplementation, entries[k].Implementation) && has(gls.byReference, entries[k].Reference))
+//@   loop 1 invariant all(q, has(old(gls.byImplementation), q) ==> has(gls.byImplementation, q)) && all(q, has(old(gls.byReference), q) ==> has(gls.byReference, q))
+//@   ensures result == nil ==> forall(k, 0, len(entries), has(gls.byImplementation, entries[k].Implementation) && has(gls.byReference, entries[k].Reference))
+//@   ensures all(q, has(old(gls.byImplementation), q) ==> has(gls.byImplementation, q)) && all(q, has(old(gls.byReference), q) ==> has(gls.byReference, q))
